@@ -82,9 +82,10 @@ func Identifiable(d *gtfsrt.TripDescriptor) bool {
 	return d.GetRouteId() != "" && d.DirectionId != nil && d.StartTime != nil && d.StartDate != nil
 }
 
-var idPool = []string{"t", "T", "1", "10", "trip", "é", "a b", "x,y", "0", "A1", "zz", "R"}
-var routePool = []string{"A", "B", "M", "1", "é", "Q", "R 1"}
-var stopPool = []string{"S1", "S2", "M11N", "A27S", "é1", "", "L03", "x"}
+// The pools hold strings that differ only in case or in leading / trailing whitespace: distinct identifiers, verbatim.
+var idPool = []string{"t", "T", "1", "10", "trip", "é", "a b", "x,y", "0", "A1", "zz", "R", " t", "t "}
+var routePool = []string{"A", "B", "M", "1", "é", "Q", "R 1", "A ", "a"}
+var stopPool = []string{"S1", "S2", "M11N", "A27S", "é1", "", "L03", "x", "S1 ", "s1"}
 
 // StartDates used by generated descriptors (includes DST switch days of several zones).
 var StartDates = []string{"20240115", "20240310", "20241103", "20230312", "20230326", "20181104", "19991231", "20240229", "20380119", "19700101", "20220911", "20241006",
@@ -136,7 +137,8 @@ func GenTripDesc(r *core.Rand, n int) *gtfsrt.TripDescriptor {
 // often carry the same text in different fields or splits of the same digits.
 func GenVehDesc(r *core.Rand, n int) *gtfsrt.VehicleDescriptor {
 	d := &gtfsrt.VehicleDescriptor{}
-	pool := []string{"7001", "70", "01", "7", "001", "700", "1", "same", fmt.Sprintf("v%d", n), fmt.Sprintf("é%d", n)}
+	pool := []string{"7001", "70", "01", "7", "001", "700", "1", "same", fmt.Sprintf("v%d", n), fmt.Sprintf("é%d", n),
+		"7001 ", " 7001", "Same", "same\t", " "}
 	switch r.Intn(7) {
 	case 0:
 		d.Label = S(core.Pick(r, pool))
